@@ -24,9 +24,12 @@ import (
 // C15 — reference execution layer: the state root depends only on the executed transactions.
 //
 // Explicit-state BFS over histories that drive TWO real KVExecutor instances (A and B), each on its own in-memory
-// datastore. A "block" action executes the same block on both instances; every other action is an extra call on
-// one instance only (SetFinal, InjectTx, GetTxs, InitChain again, reopen, re-execute the last block). Every
-// interleaving of blocks, A-extras and B-extras within the bounds is enumerated.
+// datastore. A "block" action executes the same block AT THE SAME HEIGHT on both instances: at the next height, or
+// again at any height that was executed before (the current one or an older one, with the same or with other
+// transactions); every other action is an extra call on one instance only (SetFinal(h) for ANY h from 0 to two
+// above the highest height of the history - behind, at or ahead of the execution -, InjectTx, GetTxs, InitChain
+// again, reopen, re-execute the last block). Every interleaving of blocks, A-extras and B-extras within the
+// bounds is enumerated.
 //
 // Oracle = a map (the reference) that only sees the transactions of successfully executed blocks.
 //
@@ -145,7 +148,7 @@ type action struct {
 	kind string // block | setfinal | inject | gettxs | initchain | reopen | reexec
 	on   int    // instance for extras (0 = A, 1 = B)
 	blk  int
-	h    uint64
+	h    uint64 // setfinal: the height; block: 0 = the next height, h >= 1 = again at that already executed height
 }
 
 var names = [2]string{"A", "B"}
@@ -153,6 +156,9 @@ var names = [2]string{"A", "B"}
 func (a action) str(blocks [][]string) string {
 	switch a.kind {
 	case "block":
+		if a.h > 0 {
+			return fmt.Sprintf("A+B.ExecuteTxs(%q, again at height %d)", blocks[a.blk], a.h)
+		}
 		return fmt.Sprintf("A+B.ExecuteTxs(%q)", blocks[a.blk])
 	case "setfinal":
 		return fmt.Sprintf("%s.SetFinal(%d)", names[a.on], a.h)
@@ -174,23 +180,84 @@ type config struct {
 	blocks    [][]string
 	maxBlocks int
 	maxExtras int // per instance
-	acts      []action
+	// narrow = the alphabet without the order dimension: blocks only at the next height, SetFinal(h) only for
+	// executed heights h (used by the thorough tier for its run with the larger extras budget)
+	narrow bool
+	acts   []action
 }
 
-func mkConfig(nBlocks, maxBlocks, maxExtras int) *config {
-	c := &config{blocks: allBlocks[:nBlocks], maxBlocks: maxBlocks, maxExtras: maxExtras}
+func (c *config) depth() int { return c.maxBlocks + 2*c.maxExtras }
+
+func (c *config) describe() map[string]any {
+	d := map[string]any{"blocks_per_history": c.maxBlocks, "extras_per_instance": c.maxExtras, "depth": c.depth(), "block_set_size": len(c.blocks), "alphabet": len(c.acts)}
+	if c.narrow {
+		d["setfinal_heights"], d["execute_again_at_heights"] = "executed heights only", "none"
+	} else {
+		d["setfinal_heights"], d["execute_again_at_heights"] = finalHeights(c.maxBlocks), fmt.Sprintf("every executed height (1..%d)", c.maxBlocks-1)
+	}
+	return d
+}
+
+// index of an action of c in the alphabet of u (u has at least c's blocks, heights and kinds)
+func (c *config) table(u *config) []int {
+	at := map[action]int{}
+	for i, a := range u.acts {
+		at[a] = i
+	}
+	out := make([]int, len(c.acts))
+	for i, a := range c.acts {
+		j, ok := at[a]
+		if !ok {
+			panic(fmt.Sprintf("action %+v is not in the replay alphabet", a))
+		}
+		out[i] = j
+	}
+	return out
+}
+
+func mkConfig(nBlocks, maxBlocks, maxExtras int, narrow bool) *config {
+	c := &config{blocks: allBlocks[:nBlocks], maxBlocks: maxBlocks, maxExtras: maxExtras, narrow: narrow}
 	for b := range c.blocks {
 		c.acts = append(c.acts, action{kind: "block", blk: b, on: -1})
 	}
+	if narrow {
+		for on := 0; on < 2; on++ {
+			for h := 1; h <= maxBlocks; h++ {
+				c.acts = append(c.acts, action{kind: "setfinal", on: on, h: uint64(h)})
+			}
+			for _, k := range []string{"inject", "gettxs", "initchain", "reopen", "reexec"} {
+				c.acts = append(c.acts, action{kind: k, on: on})
+			}
+		}
+		return c
+	}
+	// a block executed again at an already executed height h (enabled when h <= highest executed height; the last
+	// block of a history can find at most maxBlocks-1 executed heights)
+	for h := 1; h < maxBlocks; h++ {
+		for b := range c.blocks {
+			c.acts = append(c.acts, action{kind: "block", blk: b, on: -1, h: uint64(h)})
+		}
+	}
 	for on := 0; on < 2; on++ {
-		for h := 1; h <= maxBlocks; h++ {
-			c.acts = append(c.acts, action{kind: "setfinal", on: on, h: uint64(h)})
+		// every height from 0 to two above the highest height a history can reach: whatever the current height
+		// cur is, SetFinal(0), (cur-1), (cur), (cur+1), (cur+2) are all among them, at any point of the history
+		for _, h := range finalHeights(maxBlocks) {
+			c.acts = append(c.acts, action{kind: "setfinal", on: on, h: h})
 		}
 		for _, k := range []string{"inject", "gettxs", "initchain", "reopen", "reexec"} {
 			c.acts = append(c.acts, action{kind: k, on: on})
 		}
 	}
 	return c
+}
+
+// finalHeights: 1..maxBlocks first (the finalisations a node performs), then 0 and the two heights above.
+func finalHeights(maxBlocks int) []uint64 {
+	var hs []uint64
+	for h := 1; h <= maxBlocks; h++ {
+		hs = append(hs, uint64(h))
+	}
+	return append(hs, 0, uint64(maxBlocks+1), uint64(maxBlocks+2))
 }
 
 // ---------------------------------------------------------------------------------------------------------------
@@ -280,7 +347,8 @@ type sys struct {
 	succ     uint64
 	lastBlk  int
 	lastOK   bool
-	nRootCmp int // returned roots compared with the reference in checked steps
+	atHeight []int // atHeight[h-1] = index of the block that was last executed successfully at height h
+	nRootCmp int   // returned roots compared with the reference in checked steps
 }
 
 var (
@@ -418,13 +486,18 @@ func (s *sys) key() string {
 	if b < a {
 		a, b = b, a
 	}
-	return fmt.Sprintf("nb%d succ%d lb%d ok%v ref{%s} || %s || %s", s.nBlocks, s.succ, s.lastBlk, s.lastOK, canonMap(s.ref), a, b)
+	// the heights executed so far (succ, atHeight) only matter to later block actions
+	heights := "-"
+	if s.nBlocks < s.cfg.maxBlocks {
+		heights = fmt.Sprintf("succ%d at%v", s.succ, s.atHeight)
+	}
+	return fmt.Sprintf("nb%d %s lb%d ok%v ref{%s} || %s || %s", s.nBlocks, heights, s.lastBlk, s.lastOK, canonMap(s.ref), a, b)
 }
 
 // enabled says whether the action may be taken in this state (bounds and preconditions).
 func (s *sys) enabled(a action) bool {
 	if a.kind == "block" {
-		return s.nBlocks < s.cfg.maxBlocks
+		return s.nBlocks < s.cfg.maxBlocks && a.h <= s.succ
 	}
 	x := s.in[a.on]
 	if x.nExtras >= s.cfg.maxExtras {
@@ -432,7 +505,7 @@ func (s *sys) enabled(a action) bool {
 	}
 	switch a.kind {
 	case "setfinal":
-		return a.h <= s.succ
+		return !s.cfg.narrow || a.h <= s.succ
 	case "reexec":
 		return s.lastBlk >= 0
 	}
@@ -451,6 +524,19 @@ func (s *sys) apply(a action, check bool) (vs []viol) {
 		blk := s.cfg.blocks[a.blk]
 		cls := classify(blk)
 		height := s.succ + 1
+		if a.h > 0 {
+			// again at an executed height. The same transactions as before: a re-execution, to be accepted like the
+			// first time. Other transactions: the statement does not say whether an executor has to accept a
+			// different block for a height it has executed, so either verdict is allowed (the same on A and B, and a
+			// rejection changes nothing); if it is accepted its transactions are executed transactions.
+			height = a.h
+			for _, x := range s.in {
+				x.kinds = append(x.kinds, "exec-again-at-executed-height")
+			}
+			if cls == mustSucceed && s.atHeight[height-1] != a.blk {
+				cls = mayFail
+			}
+		}
 		var ok [2]bool
 		var roots [2]string
 		for i, x := range s.in {
@@ -484,7 +570,12 @@ func (s *sys) apply(a action, check bool) (vs []viol) {
 			add(&viol{clause: "root-determinism", tags: []string{"valid-block-rejected"}, msg: fmt.Sprintf("well-formed block %q was rejected", blk)})
 		}
 		if accepted {
-			s.succ++
+			if a.h == 0 {
+				s.succ++
+				s.atHeight = append(s.atHeight, a.blk)
+			} else {
+				s.atHeight[height-1] = a.blk
+			}
 			for _, tx := range blk {
 				if k, v, cl := parseTx(tx); cl != txBad {
 					s.ref[k] = v
@@ -497,7 +588,7 @@ func (s *sys) apply(a action, check bool) (vs []viol) {
 				}
 			}
 			for i, x := range s.in {
-				add(s.checkRoot(x, roots[i], fmt.Sprintf("block %d %q", s.nBlocks, blk)))
+				add(s.checkRoot(x, roots[i], fmt.Sprintf("block %d %q at height %d", s.nBlocks, blk, height)))
 			}
 		}
 		return vs
@@ -506,6 +597,9 @@ func (s *sys) apply(a action, check bool) (vs []viol) {
 	x := s.in[a.on]
 	x.nExtras++
 	x.kinds = append(x.kinds, a.kind)
+	if a.kind == "setfinal" && a.h > s.succ {
+		x.kinds = append(x.kinds, "setfinal-ahead-of-execution")
+	}
 	var imgBefore, probeBefore string
 	if check {
 		imgBefore, probeBefore = x.kv.Canon(), x.probe()
@@ -579,6 +673,8 @@ type result struct {
 	trace    []string
 	outcome  string
 	rootCmp  int
+	again    int  // the last action executes a block again at an executed height: 1 = the current height, 2 = an older one
+	ahead    bool // the last action is a SetFinal(h) with h above the highest executed height
 }
 
 func runHistory(cfg *config, hist []int) result {
@@ -593,6 +689,15 @@ func runHistory(cfg *config, hist []int) result {
 			return result{disabled: true}
 		}
 		res.trace = append(res.trace, a.str(cfg.blocks))
+		if i == len(hist)-1 {
+			if a.kind == "block" && a.h > 0 {
+				res.again = 1
+				if a.h < s.succ {
+					res.again = 2
+				}
+			}
+			res.ahead = a.kind == "setfinal" && a.h > s.succ
+		}
 		vs := s.apply(a, i == len(hist)-1)
 		if i == len(hist)-1 {
 			res.vs = vs
@@ -619,11 +724,16 @@ func staticallyDisabled(cfg *config, hist []int) bool {
 
 func TestCheck(t *testing.T) {
 	r := vf.Start("C15", "model_checking")
-	nBlocks := vf.Pick(r, 10, len(allBlocks))
-	maxBlocks := vf.Pick(r, 3, 4)
-	maxExtras := vf.Pick(r, 2, 3)
-	cfg := mkConfig(nBlocks, maxBlocks, maxExtras)
-	depth := maxBlocks + 2*maxExtras
+	// uni: the alphabet histories are recorded in (every run of the tier is within its blocks, heights and budgets).
+	// quick: one search, over uni itself. thorough: the search without the order dimension at the large extras
+	// budget, and the search with it (4 ExecuteTxs calls per instance instead of 3) at the extras budget of quick.
+	uni := mkConfig(vf.Pick(r, 10, len(allBlocks)), vf.Pick(r, 3, 4), vf.Pick(r, 2, 3), false)
+	runs := []*config{uni}
+	if len(uni.blocks) > 10 {
+		runs = []*config{mkConfig(len(allBlocks), 4, 3, true), mkConfig(10, 4, 2, false)}
+	}
+	depth := uni.depth()
+	cfg := uni
 	r.Assume = []string{
 		"go-datastore contract (Put and Batch.Commit atomic, Query lists all keys) as modelled by the in-memory KV double; ds.NewKey canonicalises keys (trusted library, also used by the reference)",
 		"reopen = a new KVExecutor on a copy of the datastore image; the mempool is volatile",
@@ -631,19 +741,23 @@ func TestCheck(t *testing.T) {
 		"a transaction that writes the key /finalizedHeight may be accepted or rejected, but identically on both instances",
 		"hook apps/testapp/kv/verif_hooks.go only exposes a constructor on a given datastore, the root computation (read-only probe) and the mempool length",
 		"A and B share no state (own datastore, own channel), so the pair state is canonicalised up to swapping them",
+		"heights: both instances are always given the same ExecuteTxs calls (block, height, timestamp); a new block gets the next height (no gaps), a block may be executed again at any already executed height; SetFinal(h) is a hint that may arrive at any time for any h (0, behind, at, one or two ahead of the highest executed height) and may fail or write bookkeeping, but no root returned later may depend on it",
+		"a well-formed block executed again at an executed height with OTHER transactions than that height had may be accepted or rejected (identically on A and B; a rejection changes nothing; if accepted, its transactions count as executed, in call order); with the SAME transactions it is a re-execution and must be accepted like the first time",
 		"size part, fault model: a crash ends the process before a durable write (a Put or a whole Batch.Commit) is applied, an I/O error makes that one write fail without applying any of it (atomic writes as above); the durable writes of one ExecuteTxs are enumerated by running it once without faults (1 on the unchanged tree: the single batch commit)",
 		"size part: cases of one (size, value length, pre-state) group start from copies of one datastore image produced by real calls (same notion as reopen); keys of the enumerated blocks are k00000.., values v<i> padded to the stated length: the size of a block is varied, not the spelling of its transactions (part 1 does that)",
 		"size part: a block interrupted by a crash or a failed write may be applied completely or not at all (judged by the root after reopen/retry); the statement does not say which",
 	}
 	// cost = length first, then the lexicographic rank of the history, so that the example kept per clause is the
 	// same on every run (workers report in no particular order)
-	base := 1
-	for i := 0; i < depth; i++ {
+	// (the rank uses as many leading positions as fit into an int next to the length and the size-part costs)
+	base, rankLen := 1, 0
+	for rankLen < depth && base <= (1<<60)/(len(cfg.acts)*(depth+2)) {
 		base *= len(cfg.acts)
+		rankLen++
 	}
 	cost := func(hist []int) int {
 		rank := 0
-		for i := 0; i < depth; i++ {
+		for i := 0; i < rankLen; i++ {
 			rank *= len(cfg.acts)
 			if i < len(hist) {
 				rank += hist[i]
@@ -685,39 +799,70 @@ func TestCheck(t *testing.T) {
 		r.Finish(vf.Coverage{Evaluations: 1, DistinctNontrivial: 1})
 		return
 	}
-	var executed, disabled, blockRuns, rootChecks, nSamples atomic.Int64
+	var executed, disabled, blockRuns, rootChecks, nSamples, againCur, againOlder, finalAhead atomic.Int64
 	started := time.Now()
-	st := explore.BFS(explore.BFSConfig{Depth: depth, Actions: len(cfg.acts), Deadline: vf.Pick(r, 100*time.Second, 25*time.Minute)}, func(hist []int) explore.Step {
-		if staticallyDisabled(cfg, hist) {
-			disabled.Add(1)
-			return explore.Step{Prune: true}
-		}
-		res := runHistory(cfg, hist)
-		if res.disabled {
-			disabled.Add(1)
-			return explore.Step{Prune: true}
-		}
-		if n := executed.Add(1); n%500000 == 0 {
-			fmt.Fprintf(os.Stderr, "progress: %d histories executed, at depth %d, %s\n", n, len(hist), time.Since(started).Round(time.Second))
-		}
-		if n := len(hist); n > 0 && cfg.acts[hist[n-1]].kind == "block" {
-			blockRuns.Add(1)
-		}
-		rootChecks.Add(int64(res.rootCmp))
-		if report(hist, res) {
-			return explore.Step{Prune: true}
-		}
-		if (len(hist) == 4 || len(hist) == depth) && nSamples.Add(1) <= 3 { // the other sample slots are for part 2
-			r.Sample(strings.Join(res.trace, " ; ") + "  =>  " + res.outcome)
-		}
-		r.Outcome(res.outcome)
-		return explore.Step{Key: res.key}
-	})
-	part1Wall := time.Since(started)
+	var st explore.BFSStats // sums over the runs of part 1
 	var caps []string
-	if st.Capped != "" {
-		caps = append(caps, st.Capped)
+	var runInfo []map[string]any
+	part1Done := true
+	for ri, cfg := range runs {
+		tr := cfg.table(uni)
+		inUni := func(hist []int) []int {
+			out := make([]int, len(hist))
+			for i, ai := range hist {
+				out[i] = tr[ai]
+			}
+			return out
+		}
+		runStarted, execBefore := time.Now(), executed.Load()
+		rs := explore.BFS(explore.BFSConfig{Depth: cfg.depth(), Actions: len(cfg.acts), Deadline: vf.Pick(r, 100*time.Second, 25*time.Minute)}, func(hist []int) explore.Step {
+			if staticallyDisabled(cfg, hist) {
+				disabled.Add(1)
+				return explore.Step{Prune: true}
+			}
+			res := runHistory(cfg, hist)
+			if res.disabled {
+				disabled.Add(1)
+				return explore.Step{Prune: true}
+			}
+			if n := executed.Add(1); n%500000 == 0 {
+				fmt.Fprintf(os.Stderr, "progress: %d histories executed, run %d at depth %d, %s\n", n, ri+1, len(hist), time.Since(started).Round(time.Second))
+			}
+			if n := len(hist); n > 0 && cfg.acts[hist[n-1]].kind == "block" {
+				blockRuns.Add(1)
+			}
+			rootChecks.Add(int64(res.rootCmp))
+			switch res.again {
+			case 1:
+				againCur.Add(1)
+			case 2:
+				againOlder.Add(1)
+			}
+			if res.ahead {
+				finalAhead.Add(1)
+			}
+			if len(res.vs) > 0 && report(inUni(hist), res) {
+				return explore.Step{Prune: true}
+			}
+			if (len(hist) == 4 || len(hist) == cfg.depth()) && nSamples.Add(1) <= 3 { // the other sample slots are for part 2
+				r.Sample(strings.Join(res.trace, " ; ") + "  =>  " + res.outcome)
+			}
+			r.Outcome(res.outcome)
+			return explore.Step{Key: res.key}
+		})
+		st.States += rs.States
+		st.Transitions += rs.Transitions
+		if rs.Capped != "" {
+			caps = append(caps, fmt.Sprintf("part 1 run %d: %s", ri+1, rs.Capped))
+		}
+		if rs.DepthDone != cfg.depth() {
+			part1Done = false
+		}
+		info := cfg.describe()
+		info["depth_done"], info["states"], info["states_per_level"], info["histories_executed"], info["wall_s"] = rs.DepthDone, rs.States, rs.PerLevel, executed.Load()-execBefore, time.Since(runStarted).Seconds()
+		runInfo = append(runInfo, info)
 	}
+	part1Wall := time.Since(started)
 	// second part: the block-size dimension (size_test.go)
 	sz := runSizePhase(r, sizeCostBase, started.Add(vf.Pick(r, 300*time.Second, 40*time.Minute)))
 	if sz.capped != "" {
@@ -725,13 +870,15 @@ func TestCheck(t *testing.T) {
 	}
 	r.Finish(vf.Coverage{
 		Evaluations: executed.Load() + sz.cases, DistinctNontrivial: st.States + sz.cases, States: st.States, Transitions: st.Transitions,
-		Rule: "PART 1 (interleavings, small blocks): every interleaving of: execute one of the blocks on both real instances (at most maxBlocks), and per instance at most maxExtras extra calls from {SetFinal(h) for executed h, InjectTx, GetTxs, InitChain again, reopen, re-execute the last block}; each history is run from scratch on two fresh real KVExecutors; histories are merged when both datastore images, both mempools, the fed-back roots/heights, the used budgets and the reference map agree (the executor has no other state; extra struct fields would be part of the key), modulo swapping A and B; states/transitions refer to this part (transitions also counts histories rejected by bounds/preconditions). " +
+		Rule: "PART 1 (interleavings, small blocks): every interleaving of: execute one of the blocks on both real instances (at most maxBlocks ExecuteTxs calls per instance), either at the next height or AGAIN AT ANY ALREADY EXECUTED HEIGHT (the current or an older one, any block of the set: the same or other transactions than that height had), and per instance at most maxExtras extra calls from {SetFinal(h) for EVERY h of bounds.setfinal_heights = 0..maxBlocks+2, whatever has been executed so far (so finalisation behind, at, one and two heights ahead of the execution, before the block exists, and SetFinal(0)), InjectTx, GetTxs, InitChain again, reopen, re-execute the last block}; the reference map applies the transactions of every accepted ExecuteTxs in call order, whatever its height, and every root returned by either instance must equal it; each history is run from scratch on two fresh real KVExecutors; histories are merged when both datastore images, both mempools, the fed-back roots/heights, the used budgets and the reference map agree (the executor has no other state; extra struct fields would be part of the key), modulo swapping A and B; states/transitions refer to this part (transitions also counts histories rejected by bounds/preconditions). Part 1 consists of the searches listed under bounds.part1_runs, each exhaustive within its own bounds (quick: one search; thorough: one WITHOUT the order dimension - blocks only at the next height, SetFinal only for executed heights - at the larger extras budget, and one with it at 4 ExecuteTxs calls per instance and the extras budget of quick; a block set of size n is the first n blocks of bounds.block_set); states and transitions are summed over them. " +
 			"PART 2 (block size, plain nested loops, no sampling): one block of n transactions k00000..k<n-1> for every n of size_part.sizes, from each pre-state of size_part.plan.pre_states (empty = fresh store; half = a previous block wrote the even-numbered ones of the n keys with other values, and one more key, so that a partially applied block shows both as overwritten and as new keys), with exactly one deviation at an enumerated position: an invalid transaction of each kind at tx position p (only instance A is offered the block); the same transactions executed as one block on A and as two blocks split at p on B; a duplicate key (tx[p] rewrites tx[0] / tx[p-1]; the last tx rewrites tx[p]); a crash before, or an I/O error at, EVERY durable write that a fault-free ExecuteTxs of that block performs (measured per block), followed by reopen/retry; every position p for the sizes listed under every_position_*, otherwise the boundary positions (positions_otherwise); after a rejected or interrupted block a small valid block follows; each case ends with InitChain again and a reopen; the pre-state of a (size, value length, pre-state) group is produced once by real calls and every case runs on fresh real KVExecutors over a copy of that datastore image. Each case of part 2 is a distinct input by construction. " +
 			"evaluations = enabled histories executed in part 1 + cases executed in part 2; distinct = distinct merged states of part 1 + cases of part 2",
-		Exhaustive: st.DepthDone == depth && sz.capped == "", Caps: caps,
-		Bounds: map[string]any{"depth": st.DepthDone, "blocks_per_history": maxBlocks, "extras_per_instance": maxExtras, "block_set": cfg.blocks, "alphabet": len(cfg.acts), "states_per_level": st.PerLevel,
+		Exhaustive: part1Done && sz.capped == "", Caps: caps,
+		Bounds: map[string]any{"part1_runs": runInfo, "block_set": uni.blocks,
 			"size_part": map[string]any{"plan": sz.plan, "distinct_block_sizes": sz.sizes, "largest_block_txs": sz.maxSize, "largest_block_bytes": sz.maxBytes}},
-		Extra: map[string]any{"histories_disabled": disabled.Load(), "histories_ending_in_a_block": blockRuns.Load(), "returned_roots_compared_with_reference": rootChecks.Load() + sz.rootCmp,
+		Extra: map[string]any{"histories_disabled": disabled.Load(), "histories_ending_in_a_block": blockRuns.Load(),
+			"histories_ending_in_a_block_executed_again_at_the_current_height": againCur.Load(), "histories_ending_in_a_block_executed_again_at_an_older_height": againOlder.Load(),
+			"histories_ending_in_setfinal_ahead_of_execution": finalAhead.Load(), "returned_roots_compared_with_reference": rootChecks.Load() + sz.rootCmp,
 			"part1_histories_executed": executed.Load(), "part1_wall_s": part1Wall.Seconds(),
 			"size_part_cases": sz.cases, "size_part_cases_by_kind": sz.byKind, "size_part_outcomes": sz.outcomeKeys, "size_part_roots_compared_with_reference": sz.rootCmp,
 			"size_part_max_durable_writes_per_executetxs": sz.maxWrites, "size_part_wall_s": sz.wall.Seconds(), "size_part_cpu_s": sz.cpu.Seconds(), "size_part_groups": sz.groups},
